@@ -88,6 +88,61 @@ Section HM7.
       cbn [rbind] in H. inversion H; subst r. destruct (IH _ _ _ I E1) as (I' & ->). cbn [rbind fst snd]. auto.
   Qed.
 
+  (* ---- next(m) / next(m, k) (hashmapT.__next), which is not an operation of the step relation: it answers exactly
+     as the flat map's next (so its results do not depend on the hash function either), and against the
+     association-list specification: an absent key is stopped by the assertion, next(m) of a non-empty map is a
+     binding, every binding returned is one of the map's *)
+  Theorem hm_next_flat : forall k m, hm_inv m ->
+    fm_next K V keqb k (canon m) = hm_next K V keqb khash k m.
+  Proof.
+    intros k m I. pose proof I as (ch & fl & Iw). unfold fm_next, hm_next.
+    assert (forall st, match hm_scan K V (skipn st (hnodes (canon m))) st with
+                       | Some (_, nd) => Some (nkey nd, nval nd) | None => None end =
+                       match hm_scan K V (skipn st (hnodes m)) st with
+                       | Some (_, nd) => Some (nkey nd, nval nd) | None => None end) as SC.
+    { intros st. cbn [Model.canon Model.hnodes]. rewrite skipn_map, scan_canon.
+      destruct (hm_scan K V (skipn st (hnodes m)) st) as [[i nd]|]; cbn [option_map fst snd]; [|reflexivity].
+      rewrite (canon_key K V), (canon_val K V). reflexivity. }
+    destruct k as [k|]; [|cbn [rbind]; rewrite SC; reflexivity].
+    rewrite (fm_find_canon K V keqb).
+    destruct (Nat.eq_dec (length (hbuckets m)) 0) as [E|E].
+    - rewrite hm_find_empty by assumption. cbn [rbind fst].
+      rewrite (fm_find_miss K V keqb); [reflexivity|]. fold (hm_abs m). rewrite (abs_empty K V keqb khash _ _ _ Iw E). reflexivity.
+    - destruct (hm_find_spec K V keqb khash m ch fl k Iw ltac:(lia)) as (Hb & ->). cbn [rbind fst].
+      pose proof (find_abs K V keqb khash keqb_sym keqb_trans hash_coh m ch fl k Iw ltac:(lia)) as FA. cbn zeta in FA.
+      destruct (find_in K V keqb (hnodes m) k (ch (hashmod (khash k) (length (hbuckets m)))) None) as [[i|] p]; cbn [fst].
+      + destruct FA as (nd & l1 & l2 & Hn & F & Q & _).
+        rewrite (fm_find_hit K V keqb keqb_sym keqb_trans k _ i nd (KU_of_inv K V keqb khash _ _ _ Iw) Hn F Q).
+        cbn [rbind]. rewrite SC. reflexivity.
+      + destruct FA as (AF & _). rewrite (fm_find_miss K V keqb _ _ AF). reflexivity.
+  Qed.
+
+  Theorem hm_next_refines_map : forall k m al, hm_R K V keqb khash m al ->
+    match k with
+    | None => exists o, hm_next K V keqb khash None m = Ok o /\ (o = None <-> al = []) /\ (forall kv, o = Some kv -> In kv al)
+    | Some k' =>
+        match al_get K V keqb k' al with
+        | None => hm_next K V keqb khash (Some k') m = Trap TrapInvalidKey
+        | Some _ => exists o, hm_next K V keqb khash (Some k') m = Ok o /\ (forall kv, o = Some kv -> In kv al)
+        end
+    end.
+  Proof.
+    intros k m al (I & P). destruct (hm_next_ok K V keqb khash keqb_sym keqb_trans hash_coh m I) as (N0 & NK).
+    assert (forall p kv, nth_error (hm_abs m) p = Some kv -> In kv al) as IN.
+    { intros p kv H. eapply Permutation_in; [exact P|]. eapply nth_error_In; eauto. }
+    destruct k as [k|].
+    - specialize (NK k). rewrite (al_get_find K V keqb).
+      assert (keys_nodup K V keqb (hm_abs m)) as ND by (destruct I as (ch & fl & Iw); eapply abs_nodup; eauto).
+      rewrite <- (al_find_perm K V keqb keqb_sym keqb_trans _ _ k ND P).
+      destruct (al_find K V keqb k (hm_abs m)) as [kv|]; cbn [option_map]; [|exact NK].
+      destruct NK as (p & _ & ->). eexists. split; [reflexivity|]. intros kv' H. eapply IN; eauto.
+    - rewrite N0. eexists. split; [reflexivity|]. split.
+      + split; intros H.
+        * destruct (hm_abs m) eqn:E; [|discriminate]. apply Permutation_nil in P. assumption.
+        * subst al. apply Permutation_sym, Permutation_nil in P. rewrite P. reflexivity.
+      + intros kv H. eapply IN; eauto.
+  Qed.
+
   (* ---- one operation *)
   Theorem hm_step_flat : forall o m, hm_inv m ->
     (hm_step o m = Trap TrapOverflow /\ fm_step o (canon m) = Trap TrapOverflow /\
